@@ -95,6 +95,10 @@ def directed_scenarios(base):
         [("call", "k1"), ("step", "k1"), ("resched", "env"), ("ctx", "env"), ("step", "g"), ("step", "g"), ("step", "g"), ("probe", "env")],
         [("ctx", "env"), ("call", "c1"), ("resched", "env"), ("step", "g"), ("step", "g"), ("step", "g"), ("probe", "env"), ("step", "c1")],
         [("call", "c1"), ("step", "c1"), ("step", "c1"), ("resched", "env"), ("step", "g"), ("step", "g"), ("step", "g"), ("step", "g"), ("probe", "env")],
+        # the timer has fired and its branch is under way when CancelJob succeeds (counterexample of
+        # MC_Scheduler_cancelrace.cfg): the job must not run, the replacement scheduled under the name stays
+        [("timer", "env"), ("step", "g"), ("call", "k1"), ("step", "k1"), ("resched", "env"), ("step", "g"), ("step", "g"), ("step", "g"), ("step", "g"), ("probe", "env")],
+        [("timer", "env"), ("call", "k1"), ("step", "g"), ("step", "g"), ("step", "k1"), ("step", "g"), ("step", "g"), ("step", "g"), ("probe", "env")],
     ]
     out = []
     for i, p in enumerate(plans):
@@ -156,9 +160,11 @@ def run(tier):
     v.add_mc(vf.tlc_exhaustive(PID, "Scheduler", "MC_Scheduler.cfg", workers=4))
     v.add_mc(vf.tlc_exhaustive(PID, "Scheduler", "MC_Scheduler_periodic.cfg", workers=4))
     # sensitivity of the model: the pinned timer branch (named deviation GTDrop) must violate it
-    r = vf.tlc(PID, "mc-pinned", "Scheduler", "MC_Scheduler_pinned.cfg", workers=2)
-    if r["kind"] != "invariant":
-        raise vf.Broken("the named deviation GTDrop no longer violates the specification: vacuous model")
+    for cfg, dev in (("MC_Scheduler_pinned.cfg", "GTDrop"), ("MC_Scheduler_byname.cfg", "DeleteByName"),
+                     ("MC_Scheduler_cancelrace.cfg", "ClaimIgnoresCancel")):
+        r = vf.tlc(PID, "mc-" + dev, "Scheduler", cfg, workers=2)
+        if r["kind"] != "invariant":
+            raise vf.Broken("the named deviation %s no longer violates the specification: vacuous model" % dev)
     if tier == "thorough":
         v.add_mc(vf.tlc_exhaustive(PID, "Scheduler", "MC_Scheduler_big.cfg", workers=8, timeout=1500))
         v.add_mc(vf.tlc_exhaustive(PID, "Scheduler", "MC_Scheduler_periodic_big.cfg", workers=8, timeout=1500))
